@@ -23,7 +23,7 @@ try:
     rc, o = sh(['bash', os.path.join(src, 'demo.sh'), tgt + '/debug/fst'], wt, env)
     res['demo_fails_with_patch'] = rc != 0
     res['demo_tail'] = o.splitlines()[-3:]
-    cenv = dict(os.environ, VERIF_REPO=wt)
+    cenv = dict(os.environ, VERIF_REPO=wt, VERIF_EVIDENCE_DIR='/tmp/cf-ev')
     res['checks'] = {}
     for pid in props:
         r = subprocess.run(['/verif/check', pid], env=cenv, stdout=subprocess.PIPE, stderr=subprocess.STDOUT, text=True)
